@@ -25,24 +25,13 @@ theorem applyAfter_acct (w : World) (op : Nat) (a : After) (rest : List K)
       simp only
       have hid := getObj_id hg
       have hg' : getObj { w with stack := .user op (.timerDone k rep) :: rest } o.id = some o := by rw [hid]; exact hg
-      by_cases hr : rep
-      · simp only [hr, Bool.not_true, Bool.false_eq_true, if_false]
-        by_cases hc : o.cancelled
-        · simp only [hc, if_true]
-          have b := setObj_same_bits _ o { o with cancelled := false } hn hg' rfl (by simp [bitsOf])
-          exact acct_finish hI b 0 rfl (by simp [setObj]) (by simp [setObj, postFrames])
-        · simp only [hc]
-          by_cases hs : o.tstate == .ready
-          · simp only [hs, if_true]
-            have b := armTimer_bal _ o op true hn hg'
-            refine acct_finish hI b 0 ?_ ?_ ?_
-            · simp [armTimer, setObj]; split <;> rfl
-            · simp [armTimer, setObj]; split <;> rfl
-            · simp [postFrames]
-          · simp only [hs]
-            exact acct_finish hI (Bal.refl _ hn) 0 rfl (by simp) (by simp [postFrames])
-      · simp only [hr, Bool.not_false, if_true]
-        exact acct_finish hI (Bal.refl _ hn) 0 rfl (by simp) (by simp [postFrames])
+      repeat' split
+      all_goals first
+        | exact acct_finish hI (Bal.refl _ hn) 0 rfl (by simp) (by simp [postFrames])
+        | exact acct_finish hI (setObj_same_bits _ o { o with cancelled := false } hn hg' rfl (by simp [bitsOf])) 0 rfl
+            (by simp [setObj]) (by simp [setObj, postFrames])
+        | exact acct_finish hI (armTimer_bal _ o op true hn hg') 0 (by simp [armTimer, setObj]; split <;> rfl)
+            (by simp [armTimer, setObj]; split <;> rfl) (by simp [postFrames])
 
 theorem cancelStep_acct (w w' : World) (k : Nat) (phase : Phase) (rest : List K) (e : Ev)
     (hst : w.stack = .cancelCall k phase :: rest) (hI : AcctInv w) (h : cancelStep w k phase rest e = some w') : AcctInv w' := by
@@ -87,35 +76,28 @@ theorem pollDispatch_acct (w w' : World) (op : Nat) (any : Bool) (rest : List K)
     simp only [hop] at h
     split at h
     · -- posted handler
-      split at h
-      · split at h
-        · cases h
-          rename_i p ps hps heq
-          exact acct_finish hI (Bal.refl w hn) 0 rfl (by simp) (by simp [hst, hps, postFrames]; omega)
-        · cases h
-      · cases h
+      repeat' split at h
+      all_goals first
+        | (cases h; done)
+        | (cases h
+           rename_i p ps hps heq
+           exact acct_finish hI (Bal.refl w hn) 0 rfl (by simp) (by simp [hst, hps, postFrames]; omega))
     · cases hg : getObj w info.obj with
       | none => simp [hg] at h
       | some o =>
         simp only [hg] at h
         have hg' : getObj w o.id = some o := by rw [getObj_id hg]; exact hg
-        split at h
-        · split at h
-          · cases h
-            rename_i hcond
-            have hev : o.evR = true := by simp at hcond; exact hcond.1
-            have b := setObj_bal w o { o with evR := false, tstate := .ready } hn hg' rfl (-1) (by simp [bitsOf, hev] <;> omega)
-            exact acct_finish hI b 0 rfl (by simp [setObj]; omega) (by simp [hst, postFrames])
-          · cases h
-        · split at h
-          · split at h
-            · cases h
-              exact acct_finish hI (delRead_bal w o hn hg') 0 rfl (by simp) (by simp [hst, postFrames])
-            · cases h
-          · split at h
-            · cases h
-              exact acct_finish hI (delWrite_bal w o hn hg') 0 rfl (by simp) (by simp [hst, postFrames])
-            · cases h
+        repeat' split at h
+        all_goals first
+          | (cases h; done)
+          | (cases h
+             rename_i hcond
+             have hev : o.evR = true := by
+               simp only [Bool.and_eq_true] at hcond; exact hcond.1.2
+             have b := setObj_bal w o { o with evR := false, tstate := .ready } hn hg' rfl (-1) (by simp [bitsOf, hev] <;> omega)
+             exact acct_finish hI b 0 rfl (by simp [setObj]; omega) (by simp [hst, postFrames]))
+          | (cases h; exact acct_finish hI (delRead_bal w o hn hg') 0 rfl (by simp) (by simp [hst, postFrames]))
+          | (cases h; exact acct_finish hI (delWrite_bal w o hn hg') 0 rfl (by simp) (by simp [hst, postFrames]))
 
 theorem push_acct (w : World) (k : K) (hI : AcctInv w) (hk : ∀ op, k ≠ .user op .postDone) : AcctInv (push w k) :=
   acct_finish hI (Bal.refl w hI.1) 0 rfl (by simp [push]) (by simp [push, postFrames_cons_other k _ hk])
